@@ -73,12 +73,12 @@ CLAIMED = {
    technique="translation validation per corpus program: real front end run natively, back end executed symbolically from MIR (mirsym -> z3), body compared with a hand-written denotation",
    category="translation_validation",
    text="20 corpus programs (integer arithmetic with left-nested and parenthesised subtraction and negation, multi-asset arithmetic, input datum with spread, out-of-order record fields and variant cases, mint/burn/validity/signers/metadata/reference/collateral, net mint of several blocks, list index / concat / list / map literals, indexed access into an input datum, locals and env, a policy read as address / bytes / asset, time/slot built-ins before and after the chain tip, two inputs, a metadata integer over the whole i128 range, datum fields used in validity / signers / metadata, min_utxo of a named output behind anonymous and optional outputs incl. a second pass, withdrawal and donation, publish with reference script, vote-delegation certificate, asset definitions, aliases, a many-input, a burn, two transactions whose names differ in case) x 3 whitespace/comment layouts are parsed, analysed and lowered by the repository's own front end; the lowered TIR is then applied, reduced and compiled by the real back end executed from MIR with arguments, UTxO amounts and fee symbolic, and z3 shows every output (address, lovelace, per-class native assets, datum tree, order), mint quantity, validity bound, signer, reference, collateral, input, metadata entry and the fee equal to the denotation written by hand for that program.",
-   note="programs are enumerated (the corpus), not solver-quantified; counterexamples about outputs, fee and validity are replayed on the native binary (it must observe what engine M computed) before they are reported; one known finding (min_utxo of an output behind an omitted optional output); amounts below 2^16 (quick) / 2^40 (thorough); one UTxO per input; min_utxo and byte-level CBOR outside.",
+   note="programs are enumerated (the corpus), not solver-quantified; counterexamples about outputs, fee and validity are replayed on the native binary (it must observe what engine M computed) before they are reported; one known finding (min_utxo of an output behind an omitted optional output); amounts below 2^16 (quick) / 2^40 (thorough); one UTxO per input; byte-level CBOR outside.",
    design="§3 C01, §A.6"),
  "C20": dict(
    technique="symbolic execution of the MIR of resolve_tx / eval_pass with the real Cardano Compiler (compile, reduce_op, compute_min_utxo) run twice - fresh vs. arbitrary left-over state - and structural comparison of the two outcomes (mirsym -> z3); differences resting on uninterpreted encoded lengths are decided by native replay",
-   text="For a template sizing output k in {0,1} with min_utxo and paying `fees`, resolve_tx (<= 5 passes) is executed from MIR on a fresh Compiler (built by the real constructor) and on one whose latest_tx_body is arbitrary (absent, or a body with 0..2 arbitrary outputs) or that really resolved an earlier template before (succeeding, or using min_utxo and failing in its second pass); a second harness resolves a target with an input over a store of one UTxO of symbolic value: both runs end Ok with structurally equal payload, hash and fee terms, or Err of the same kind, on every path (z3 unsat per obligation). Bounded: one field of state (the only one compile() writes), templates of two outputs without inputs, max_optimize_rounds = 3.",
-   note="CBOR encoders / digests are injective uninterpreted functions and encoded lengths uninterpreted: a difference between two Ok outcomes is reported only when the native replay binary reproduces it with a concrete earlier template; Ok-vs-Err differences are definite.",
+   text="For a template sizing output k in {0,1} with min_utxo and paying `fees`, resolve_tx (<= 5 passes) is executed from MIR on a fresh Compiler (built by the real constructor) and on one whose latest_tx_body is arbitrary (absent, or a body with 0..2 arbitrary outputs) or that really resolved an earlier template before (succeeding, or using min_utxo and failing in its second pass); a second harness resolves a target with an input over a store of one UTxO of symbolic value: both runs end Ok with structurally equal payload, hash and fee terms, or Err of the same kind, on every path (z3 unsat per obligation). Bounded: templates of two outputs without inputs and one template with one input, histories of one earlier resolution (or arbitrary content of latest_tx_body), max_optimize_rounds = 3.",
+   note="CBOR encoders / digests are injective uninterpreted functions and encoded lengths uninterpreted: a difference between two Ok outcomes is reported only when the native replay binary reproduces it with a concrete earlier template; Ok-vs-Err differences of templates without inputs are definite; with an input they depend on such a length and are searched for on the real build as well.",
    design="§3 C20, §A.7"),
  "C17": dict(
    technique="symbolic execution of the MIR of the interface emitter (bin/tx3c: tii::infer_tx_params_schema, tii::infer_env_schema) and of the analyzer / lowering path that names IR parameters (Scope::track_param_var / track_env_var, <Identifier as IntoLower>::into_lower, find_params) on one symbolic identifier (mirsym -> z3)",
